@@ -618,8 +618,10 @@ func (ex *Exec) discharge(opts VerifyOpts) []OblResult {
 			}
 			sr := Solve(script, timeout, true)
 			r.SolverMs += sr.Ms
-			if sr.Status != "unsat" && sr.Status != "sat" && loadScale() > 1.5 && o.Kind != "cover" && o.Kind != "canary" {
-				// undecided on a busy machine: once more, with three times the budget, before anything is reported
+			if sr.Status != "unsat" && sr.Status != "sat" && (loadScale() > 1.05 || sr.Status == "timeout") && o.Kind != "cover" && o.Kind != "canary" {
+				// undecided because time ran out, or on a busy machine: once more, with three times the budget, before anything
+				// is reported (an undischarged obligation on a tree where it holds is a false alarm; a second attempt costs
+				// time only on trees where something is wrong anyway)
 				sr2 := Solve(script, 3*timeout, true)
 				r.SolverMs += sr2.Ms
 				if sr2.Status == "unsat" || sr2.Status == "sat" {
